@@ -129,18 +129,25 @@ func (s *session) create() error {
 
 // Recover a database session; need external synchronization.
 func (s *session) recover() (err error) {
+	noMeta := false
 	defer func() {
 		if os.IsNotExist(err) {
 			// Don't return os.ErrNotExist if the underlying storage contains
 			// other files that belong to LevelDB. So the DB won't get trashed.
+			// Manifests without an entry point, a journal or a table are what
+			// a crash during the creation of the DB leaves behind: there is
+			// nothing to lose, let Open create the DB.
 			if fds, _ := s.stor.List(storage.TypeAll); len(fds) > 0 {
-				err = &errors.ErrCorrupted{Err: errors.New("database entry point either missing or corrupted")}
+				if jt, _ := s.stor.List(storage.TypeJournal | storage.TypeTable); !noMeta || len(jt) > 0 {
+					err = &errors.ErrCorrupted{Err: errors.New("database entry point either missing or corrupted")}
+				}
 			}
 		}
 	}()
 
 	fd, err := s.stor.GetMeta()
 	if err != nil {
+		noMeta = os.IsNotExist(err)
 		return
 	}
 
